@@ -12,7 +12,9 @@ C40 driver.  Case lines:
         gamertag for an empty format) — the Sprintf PARAMETER of the model, supplied by the harness.
 Spec verdicts (on the implementation's output): the name is a valid Java name (1..16 of A-Z a-z 0-9 _); the UUID
 has 16 bytes, version 5, variant 10, both calls agree, and — across the whole run — no two different XUIDs were given
-the same UUID (the driver remembers every UUID the implementation produced; a `reset` line clears the memory).
+the same UUID and the same (format, gamertag) was never given two different names (the driver remembers every UUID
+and every name the implementation produced; a `reset` line clears the memory).  For formats `prefix%ssuffix` the
+driver also recomputes `Sprintf` itself (`simpleSprintf`) and refuses a harness-supplied `formatted` that differs.
 -/
 namespace Gate.C40
 open Gate Gate.Hash
@@ -29,13 +31,21 @@ def uuidVerdict (h : String) : String :=
 
 def both (a b : String) : String := if a ≠ "ok" then a else b
 
-abbrev Seen := Std.HashMap String Int
+structure Seen where
+  uuids : Std.HashMap String Int := {}
+  names : Std.HashMap String String := {}
 
 /-- record `uuid ↦ xuid`; a second, different XUID for the same UUID is a collision -/
 def noteUuid (seen : Seen) (u : String) (xuid : Int) : Seen × String :=
-  match seen.get? u with
+  match seen.uuids.get? u with
   | some y => if y = xuid then (seen, "ok") else (seen, "viol:uuid-collision")
-  | none => (seen.insert u xuid, "ok")
+  | none => ({ seen with uuids := seen.uuids.insert u xuid }, "ok")
+
+/-- record `(format, gamertag) ↦ name`; a different name for the same pair is instability -/
+def noteName (seen : Seen) (key name : String) : Seen × String :=
+  match seen.names.get? key with
+  | some n => if n = name then (seen, "ok") else (seen, "viol:name-unstable")
+  | none => ({ seen with names := seen.names.insert key name }, "ok")
 
 def step (seen : Seen) (c : Case) : Seen × String × String :=
   match c.op, c.args with
@@ -54,16 +64,21 @@ def step (seen : Seen) (c : Case) : Seen × String × String :=
         (seen', u ++ " " ++ u, if a ≠ b then "viol:uuid-unstable" else both (uuidVerdict a) coll)
       | _ => (seen, u ++ " " ++ u, "viol:uuid-not-rfc4122")
     | none => (seen, "bad-op", "-")
-  | "bedrock", [_fmt, _tag, formatted, x] =>
-    match parseHex formatted, x.toInt? with
-    | some f, some xuid =>
-      let m := "ok " ++ toHex (javaUuid xuid) ++ " " ++ toHex (javaCompatibleUsername f)
+  | "bedrock", [fmtH, tagH, formatted, x] =>
+    match parseHex fmtH, parseHex tagH, parseHex formatted, x.toInt? with
+    | some fmt, some tag, some f, some xuid =>
+      let sprintfOk := match simpleSprintf fmt tag with
+        | some f' => f' == f
+        | none => true
+      let m := if sprintfOk then "ok " ++ toHex (javaUuid xuid) ++ " " ++ toHex (profileName (fun _ _ => f) fmt (if fmt.isEmpty then f else tag))
+               else "sprintf-parameter-mismatch"
       match c.impl.splitOn " " with
       | ["ok", u, n] =>
-        let (seen', coll) := noteUuid seen u xuid
-        (seen', m, both (both (uuidVerdict u) (nameVerdict n)) coll)
+        let (seen1, coll) := noteUuid seen u xuid
+        let (seen2, stab) := noteName seen1 (fmtH ++ " " ++ tagH) n
+        (seen2, m, both (both (both (uuidVerdict u) (nameVerdict n)) coll) stab)
       | _ => (seen, m, "viol:bedrock-login-failed")
-    | _, _ => (seen, "bad-op", "-")
+    | _, _, _, _ => (seen, "bad-op", "-")
   | _, _ => (seen, "bad-op", "-")
 
 end Gate.C40
